@@ -176,6 +176,18 @@ check('C18', 'other',
       'Trusted: the capability abstraction of CPython\'s unpickler, the audit hook (lxml reads .def files in C, invisible to it), translator gen_sites.',
       'Coq capability model of unpickling + path theorem + generated call-site inventory theorem + audit-hook observation', 'DESIGN.md §6 C18')
 
+check('C19', 'other',
+      'Partial. setuptools is abstracted by a Gallina model (find_packages with its include filter, build_py modules, recursive package_data globs, scripts); '
+      'the abstraction is VALIDATED on every run against the name list of a wheel really built offline from a scratch copy of the working tree (sets must be '
+      'equal: translation validation). The completeness claim is an exhaustive GENERATED instance theorem over the directory trie of the working tree '
+      '(every file parsing can need - every module, every definition file of every bundled version, the fixture modules, the script - that is not shipped is a '
+      'listed finding; vm_compute). Static Coq theorems: reported packages have an __init__.py, nothing is reported below a non-package, the str passed as '
+      'include admits every package through its "*" character. Dynamic: synthetic battles for bundled versions of all games and real recordings parsed from '
+      'the unpacked wheel with the checkout removed from sys.path, digests equal to the checkout\'s. The defect present at the pinned commit (fixtures and all '
+      'wowp controllers missing from the wheel) was repaired in /repo.',
+      'Trusted: pip/setuptools for the validation build, translator gen_tree (AST of setup.py, os.listdir), the packaging model where the validation does not exercise it (sdist is not built).',
+      'generated exhaustive instance theorem over the tree + translation validation against a really built wheel + installed-copy digests', 'DESIGN.md §6 C19')
+
 NOT_YET = {}
 ALL = ['C%02d' % i for i in range(1, 20)]
 def main():
